@@ -133,6 +133,53 @@ pub proof fn lemma_hist_aside(o: int, wd: bool, dt: real, dtm: real, time: real,
         time2 == time + dt, state2.len() == state.len(), wd ==> imp2.len() == state.len() && deriv_at(imp2, time2)
     ensures hist(o, wd, dt, dtm, o - 1, time2, end, pv, pd, sl, state2, imp2)
 { reveal(hist); assert forall|i: int| 0 <= i < pv.len() implies #[trigger] entry_ok(pv, pd, i, state2.len(), wd) by { assert(entry_ok(pv, pd, i, state.len(), wd)); } }
+
+// ---- C01 for the multistep solvers: the "yield clock" -- the time of the last point handed to the iterator, read off the
+//      solver's fields (the solver's own `time` runs ahead of it while start-up points are held back) ----
+#[verifier::opaque]
+pub open spec fn yclock(o: int, dt: real, ym: int, time: real, pv: Seq<(real, Seq<real>)>) -> real {
+    let n = pv.len() as int;
+    if ym == o && n == o - 1 { pv[0].0 - dt }                                              // start-up taken, nothing of it yielded yet
+    else if 0 < ym < o { let g = o - ym - 1; if g == 0 { pv[0].0 - dt } else { pv[g - 1].0 } }     // g start-up points yielded so far
+    else if ym == o + 1 { pv[o - 2].0 }                                                      // all start-up points yielded
+    else { time }
+}
+pub proof fn lemma_spaced_sum(pv: Seq<(real, Seq<real>)>, dt: real, i: int)
+    requires forall|j: int| 0 <= j < pv.len() - 1 ==> #[trigger] spaced(pv, j, dt), 0 <= i < pv.len()
+    ensures pv[i].0 == pv[0].0 + (i as real) * dt
+    decreases i
+{
+    if i > 0 { lemma_spaced_sum(pv, dt, i - 1); assert(spaced(pv, i - 1, dt)); assert((i as real) * dt == ((i - 1) as real) * dt + dt) by(nonlinear_arith); }
+    else { assert((i as real) * dt == 0real) by(nonlinear_arith) requires i == 0; }
+}
+// the value of the yield clock, regime by regime (yclock is opaque: the step functions only use these four facts)
+pub proof fn lemma_yc_time(o: int, dt: real, ym: int, time: real, pv: Seq<(real, Seq<real>)>)
+    requires !(ym == o && pv.len() == o - 1), !(0 < ym < o), ym != o + 1 ensures yclock(o, dt, ym, time, pv) == time { reveal(yclock); }
+pub proof fn lemma_yc_pending(o: int, dt: real, ym: int, time: real, pv: Seq<(real, Seq<real>)>)
+    requires ym == o, pv.len() == o - 1, o >= 3 ensures yclock(o, dt, ym, time, pv) == pv[0].0 - dt { reveal(yclock); }
+pub proof fn lemma_yc_yield(o: int, dt: real, ym: int, time: real, pv: Seq<(real, Seq<real>)>)
+    requires 0 < ym < o ensures yclock(o, dt, ym, time, pv) == (if o - ym - 1 == 0 { pv[0].0 - dt } else { pv[o - ym - 2].0 }) { reveal(yclock); }
+pub proof fn lemma_yc_handover(o: int, dt: real, ym: int, time: real, pv: Seq<(real, Seq<real>)>)
+    requires ym == o + 1, o >= 3 ensures yclock(o, dt, ym, time, pv) == pv[o - 2].0 { reveal(yclock); }
+// the yield clock never runs ahead of the solver's time, and what it is in each regime
+pub proof fn lemma_yclock(o: int, wd: bool, dt: real, dtm: real, ym: int, time: real, end: real, pv: Seq<(real, Seq<real>)>, pd: Seq<Seq<real>>, sl: nat, state: Seq<real>, imp: Seq<real>)
+    requires hist(o, wd, dt, dtm, ym, time, end, pv, pd, sl, state, imp), o >= 3
+    ensures yclock(o, dt, ym, time, pv) <= time,
+        ym == o && pv.len() == o - 1 ==> time == pv[0].0 + ((o - 2) as real) * dt,
+        ym == o + 1 ==> pv.len() == o - 1 && pv[o - 2].0 + dt == time,
+        0 < ym < o ==> pv.len() == o - 1 && forall|j: int| 0 <= j < o - 2 ==> #[trigger] spaced(pv, j, dt),
+{
+    reveal(hist); reveal(yclock);
+    let n = pv.len() as int;
+    if !(time >= end && (ym == 0 || (ym == o && n != o - 1))) && n > 0 {
+        lemma_spaced_sum(pv, dt, n - 1);
+        assert(((n - 1) as real) * dt >= 0real) by(nonlinear_arith) requires n >= 1, dt > 0real;
+        if 0 < ym < o {
+            let g = o - ym - 1;
+            if g >= 1 { lemma_spaced_sum(pv, dt, g - 1); assert(((g - 1) as real) * dt <= ((n - 1) as real) * dt) by(nonlinear_arith) requires g - 1 <= n - 1, dt > 0real; }
+        }
+    }
+}
 '''
 
 
@@ -190,5 +237,129 @@ pub proof fn lemma_last_ok(ts: Seq<real>, rs: Seq<Result<(R, V), IVPStatus<IVPEr
         assert(ts[m] == end);
         assert(rs[m - 1] is Ok && ts[(m - 1) + 1] == end);
     } else { lemma_last_ok(ts, rs, end, k, m - 1); }
+}
+'''
+
+
+# ---- C01 for the multistep solvers: a summary of what one call of step() does, and the clock lemma over it -------------------
+MSTEP_SPEC = r'''
+// what one call of a multistep step() did to (dt, yield_memory, time, history): (dt0, ym0, t0, pv0) -> (dt1, ym1, t1, pv1), result r
+// (o = O for Adams, O + 1 for BDF; both rewind by (o - 1) dt after a rejected start-up)
+pub open spec fn mtrans(o: int, dt0: real, ym0: int, t0: real, end: real, pv0: Seq<(real, Seq<real>)>,
+                        dt1: real, ym1: int, t1: real, pv1: Seq<(real, Seq<real>)>, r: Result<(R, V), IVPStatus<IVPError>>) -> bool {
+    &&& (0 < ym0 < o ==> r is Ok && pv1 == pv0 && ym1 == (if ym0 - 1 == 0 { o + 1 } else { ym0 - 1 }) && t1 == t0 && dt1 == dt0 && r->Ok_0.0@ == pv0[o - ym0 - 1].0)
+    &&& (ym0 == o + 1 ==> r is Ok && ym1 == 0 && t1 == t0 && r->Ok_0.0@ == t0)
+    &&& ((ym0 == 0 || ym0 == o) ==> match r {
+            Err(IVPStatus::Done) => t0 >= end && t1 == t0 && ym1 == ym0 && pv1 == pv0 && dt1 == dt0,
+            Err(IVPStatus::Failure(_)) => true,
+            Ok(p) => t0 < end && (t0 + dt0 >= end ==> ym1 == ym0 && t1 == end && p.0@ == end && pv1.len() == pv0.len() + 1)
+                          && (t0 + dt0 < end ==> (pv0.len() == 0 || ym0 == 0) && ym1 == 0 && t1 == t0 + dt0 && p.0@ == t1),
+            Err(IVPStatus::Redo) => t0 + dt0 < end && (
+                   (pv0.len() == 0 && ym1 == o && pv1.len() == o - 1 && dt1 == dt0 && pv1[0].0 == t0 + dt0)                 // start-up taken
+                || (pv0.len() > 0 && ym0 == o && ym1 == o - 1 && pv1 == pv0 && dt1 == dt0)                                      // accepted, kept aside
+                || (pv0.len() > 0 && pv1.len() == 0 && ym1 == ym0 && (ym0 == 0 ==> t1 == t0) && (ym0 == o ==> t1 == t0 - dt0 * ((o - 1) as real)))),  // rejected
+        })
+}
+// C01: from the summary of a call and the history invariant before and after it, the yield clock obeys the clock contract of
+// lemma_reaches_end; every yielded point IS the new clock value, strictly later than the previous one and within dt_max of it
+pub proof fn lemma_mclock(o: int, wd: bool, dtm: real, end: real,
+        dt0: real, ym0: int, t0: real, pv0: Seq<(real, Seq<real>)>, pd0: Seq<Seq<real>>, sl0: nat, st0: Seq<real>, imp0: Seq<real>,
+        dt1: real, ym1: int, t1: real, pv1: Seq<(real, Seq<real>)>, pd1: Seq<Seq<real>>, sl1: nat, st1: Seq<real>, imp1: Seq<real>,
+        r: Result<(R, V), IVPStatus<IVPError>>)
+    requires o >= 3, t0 <= end,
+        hist(o, wd, dt0, dtm, ym0, t0, end, pv0, pd0, sl0, st0, imp0),
+        mtrans(o, dt0, ym0, t0, end, pv0, dt1, ym1, t1, pv1, r),
+        !(r is Err && r->Err_0 is Failure) ==> hist(o, wd, dt1, dtm, ym1, t1, end, pv1, pd1, sl1, st1, imp1) && t1 <= end,
+    ensures
+        (r is Err && r->Err_0 is Failure) || clock_rel(yclock(o, dt0, ym0, t0, pv0), end, yclock(o, dt1, ym1, t1, pv1), r),
+        r is Ok ==> r->Ok_0.0@ == yclock(o, dt1, ym1, t1, pv1) && r->Ok_0.0@ - yclock(o, dt0, ym0, t0, pv0) <= dtm,
+{
+    if r is Err && r->Err_0 is Failure { return; }
+    lemma_hist_basic(o, wd, dt0, dtm, ym0, t0, end, pv0, pd0, sl0, st0, imp0);
+    lemma_yclock(o, wd, dt0, dtm, ym0, t0, end, pv0, pd0, sl0, st0, imp0);
+    lemma_yclock(o, wd, dt1, dtm, ym1, t1, end, pv1, pd1, sl1, st1, imp1);
+    lemma_hist_basic(o, wd, dt1, dtm, ym1, t1, end, pv1, pd1, sl1, st1, imp1);
+    if 0 < ym0 < o {
+        // a start-up point is handed out: the clock moves from the previous one (or from the start-up's origin) to it
+        let g = o - ym0 - 1;
+        lemma_yc_yield(o, dt0, ym0, t0, pv0);
+        if g >= 1 { assert(spaced(pv0, g - 1, dt0)); }
+        if ym1 == o + 1 { lemma_yc_handover(o, dt1, ym1, t1, pv1); } else { lemma_yc_yield(o, dt1, ym1, t1, pv1); }
+    } else if ym0 == o + 1 {
+        // the multistep point kept aside is handed out
+        lemma_yc_handover(o, dt0, ym0, t0, pv0);
+        lemma_yc_time(o, dt1, ym1, t1, pv1);
+    } else if r is Err && r->Err_0 is Done {
+        if ym0 == o && pv0.len() == o - 1 { assert(false); }       // waiting start-up points: their validating step fits before the end
+        lemma_yc_time(o, dt0, ym0, t0, pv0);
+    } else {
+        // a step was attempted: the end was not reached before it, the history invariant is in force
+        lemma_hist_use(o, wd, dt0, dtm, ym0, t0, end, pv0, pd0, sl0, st0, imp0);
+        let pending = ym0 == o && pv0.len() == o - 1;
+        if pending { lemma_yc_pending(o, dt0, ym0, t0, pv0); } else { lemma_yc_time(o, dt0, ym0, t0, pv0); }
+        match r {
+            Ok(p) => {
+                // a clipped final step or an accepted one: no start-up points were waiting, the clock is the solver's time
+                assert(!pending);
+                assert(!(ym1 == o && pv1.len() == o - 1));
+                lemma_yc_time(o, dt1, ym1, t1, pv1);
+            }
+            Err(IVPStatus::Redo) => {
+                if pv0.len() == 0 { lemma_yc_pending(o, dt1, ym1, t1, pv1); }                      // start-up taken: clock stays at its origin
+                else if ym0 == o && ym1 == o - 1 { lemma_yc_yield(o, dt1, ym1, t1, pv1); }         // validated: clock still at the origin
+                else {
+                    // rejected: the solver's time is wound back to the start-up's origin, where the clock has been all along
+                    lemma_yc_time(o, dt1, ym1, t1, pv1);
+                    if ym0 == o { assert(dt0 * ((o - 1) as real) == ((o - 2) as real) * dt0 + dt0) by(nonlinear_arith); }
+                }
+            }
+            _ => {}
+        }
+    }
+}
+
+// ---- whole histories of step() calls on a multistep solver ----
+pub struct MS { pub dt: real, pub ym: int, pub t: real, pub pv: Seq<(real, Seq<real>)>, pub pd: Seq<Seq<real>>, pub sl: nat, pub st: Seq<real>, pub imp: Seq<real> }
+pub open spec fn ms_inv(o: int, wd: bool, dtm: real, end: real, s: MS) -> bool { hist(o, wd, s.dt, dtm, s.ym, s.t, end, s.pv, s.pd, s.sl, s.st, s.imp) && s.t <= end }
+pub open spec fn ms_clock(o: int, s: MS) -> real { yclock(o, s.dt, s.ym, s.t, s.pv) }
+// ss[i] -> ss[i + 1] with result rs[i]: every call obeys the step() contract (transition summary; invariant kept unless it failed)
+pub open spec fn ms_history(o: int, wd: bool, dtm: real, end: real, ss: Seq<MS>, rs: Seq<Result<(R, V), IVPStatus<IVPError>>>) -> bool {
+    ss.len() == rs.len() + 1 && ms_inv(o, wd, dtm, end, ss[0]) && forall|i: int| #![trigger rs[i]] 0 <= i < rs.len() ==>
+        mtrans(o, ss[i].dt, ss[i].ym, ss[i].t, end, ss[i].pv, ss[i + 1].dt, ss[i + 1].ym, ss[i + 1].t, ss[i + 1].pv, rs[i])
+        && (!(rs[i] is Err && rs[i]->Err_0 is Failure) ==> ms_inv(o, wd, dtm, end, ss[i + 1]))
+}
+pub proof fn lemma_ms_inv(o: int, wd: bool, dtm: real, end: real, ss: Seq<MS>, rs: Seq<Result<(R, V), IVPStatus<IVPError>>>, n: int)
+    requires ms_history(o, wd, dtm, end, ss, rs), 0 <= n <= rs.len(), forall|i: int| 0 <= i < n ==> !(#[trigger] rs[i] is Err && rs[i]->Err_0 is Failure)
+    ensures ms_inv(o, wd, dtm, end, ss[n])
+    decreases n
+{ if n > 0 { lemma_ms_inv(o, wd, dtm, end, ss, rs, n - 1); assert(!(rs[n - 1] is Err && rs[n - 1]->Err_0 is Failure)); } }
+// C01 for Adams and BDF: a solve that starts before the end, never fails and is answered Done at call k has yielded at least one
+// point, the LAST point it yielded is exactly the end time, and every yielded point lies within dt_max after the previous one
+pub proof fn lemma_mreaches_end(o: int, wd: bool, dtm: real, end: real, ss: Seq<MS>, rs: Seq<Result<(R, V), IVPStatus<IVPError>>>, k: int)
+    requires o >= 3, ms_history(o, wd, dtm, end, ss, rs), 0 <= k < rs.len(), rs[k] is Err && rs[k]->Err_0 is Done, ms_clock(o, ss[0]) < end,
+        forall|i: int| 0 <= i < k ==> !(#[trigger] rs[i] is Err && rs[i]->Err_0 is Failure)
+    ensures
+        exists|j: int| 0 <= j < k && #[trigger] rs[j] is Ok && rs[j]->Ok_0.0@ == end && forall|i: int| j < i < k ==> !(#[trigger] rs[i] is Ok),
+        forall|i: int| 0 <= i < k && #[trigger] rs[i] is Ok ==> ms_clock(o, ss[i]) < rs[i]->Ok_0.0@ <= end && rs[i]->Ok_0.0@ - ms_clock(o, ss[i]) <= dtm && rs[i]->Ok_0.0@ == ms_clock(o, ss[i + 1]),
+{
+    let ts = Seq::new((k + 2) as nat, |i: int| ms_clock(o, ss[i]));
+    let rp = rs.subrange(0, k + 1);
+    assert forall|i: int| #![trigger rp[i]] 0 <= i < rp.len() implies clock_rel(ts[i], end, ts[i + 1], rp[i]) && (rp[i] is Ok ==> rp[i]->Ok_0.0@ == ts[i + 1] && ts[i + 1] <= end && rp[i]->Ok_0.0@ - ts[i] <= dtm) by {
+        lemma_ms_inv(o, wd, dtm, end, ss, rs, i);
+        assert(rp[i] == rs[i]);
+        assert(!(rs[i] is Err && rs[i]->Err_0 is Failure));
+        let a = ss[i]; let b = ss[i + 1];
+        lemma_mclock(o, wd, dtm, end, a.dt, a.ym, a.t, a.pv, a.pd, a.sl, a.st, a.imp, b.dt, b.ym, b.t, b.pv, b.pd, b.sl, b.st, b.imp, rs[i]);
+        lemma_yclock(o, wd, b.dt, dtm, b.ym, b.t, end, b.pv, b.pd, b.sl, b.st, b.imp);
+    }
+    assert(clock_history(ts, rp, end));
+    lemma_reaches_end(ts, rp, end, k);
+    let j = choose|j: int| 0 <= j < k && #[trigger] rp[j] is Ok && ts[j + 1] == end && forall|i: int| j < i < k ==> !(#[trigger] rp[i] is Ok);
+    assert(rp[j] == rs[j]);
+    assert forall|i: int| j < i < k implies !(#[trigger] rs[i] is Ok) by { assert(rp[i] == rs[i]); }
+    assert(rs[j] is Ok && rs[j]->Ok_0.0@ == end);
+    assert forall|i: int| 0 <= i < k && #[trigger] rs[i] is Ok implies ms_clock(o, ss[i]) < rs[i]->Ok_0.0@ <= end && rs[i]->Ok_0.0@ - ms_clock(o, ss[i]) <= dtm && rs[i]->Ok_0.0@ == ms_clock(o, ss[i + 1]) by {
+        assert(rp[i] == rs[i]); assert(clock_rel(ts[i], end, ts[i + 1], rp[i]));
+    }
 }
 '''
